@@ -59,10 +59,10 @@ TC = T("GoTimedCheck", [
     ("tie_gate_Check", "CM.GoTie.GoTimedCheck.go_Check_eq", "`Check` is the model's `TC.check`: answer, gate afterwards, lock released, closures in step"),
     ("tie_gate_fire", "CM.GoTie.GoTimedCheck.go_fire_eq", "the timer callback is the model's `TC.fire`")])
 
-FAN_RUN = [((("tie_fanout_run_%s" % k), "CM.GoTie.GoFanout.run_%s" % k, "`RunMetricsCollection.%s` tells every run collector exactly once, in order" % k), "T_GoFanout") for k in KINDS]
-FAN_FB = [((("tie_fanout_fb_%s" % k), "CM.GoTie.GoFanout.fb_%s" % k, "`FallbackMetricsCollection.%s` tells every fallback collector exactly once, in order" % k), "T_GoFanout")
+FAN_RUN = [((("tie_fanout_run_%s" % k), "CM.GoTie.GoFanout.run_%s" % k, "`RunMetricsCollection.%s` tells every run collector exactly once, in order" % k), "T_GoFanRun") for k in KINDS]
+FAN_FB = [((("tie_fanout_fb_%s" % k), "CM.GoTie.GoFanout.fb_%s" % k, "`FallbackMetricsCollection.%s` tells every fallback collector exactly once, in order" % k), "T_GoFanFb")
           for k in ("Success", "ErrFailure", "ErrConcurrencyLimitReject")]
-FAN_CIRC = [((("tie_fanout_circuit_%s" % k), "CM.GoTie.GoFanout.circ_%s" % k, "`MetricsCollection.%s` tells every circuit-level collector exactly once, in order" % k), "T_GoFanout")
+FAN_CIRC = [((("tie_fanout_circuit_%s" % k), "CM.GoTie.GoFanout.circ_%s" % k, "`MetricsCollection.%s` tells every circuit-level collector exactly once, in order" % k), "T_GoFanCirc")
             for k in ("Opened", "Closed")]
 
 PROPS = {
@@ -120,7 +120,7 @@ PROPS = {
 # which regenerated units each property's tie depends on (-> lib/props.py "generated")
 UNITS = {"F_": "gocircuit", "All": "gocircuit", "T_GoHOpener": "gohopener", "T_GoHCloser": "gohcloser", "T_GoConsec": "goconsec", "T_GoRunStats": "gorunstats",
          "T_GoFbStats": "gofbstats", "T_GoSlo": "goslo", "T_GoTimedCheck": "gotimedcheck", "T_GoLiveCfg": "golivecfg",
-         "T_GoFanout": ["gofanrun", "gofanfb", "gofancirc"], "T_GoSetCfg": "gosetcfg", "T_GoStream": "gostream"}
+         "T_GoFanRun": "gofanrun", "T_GoFanFb": "gofanfb", "T_GoFanCirc": "gofancirc", "T_GoSetCfg": "gosetcfg", "T_GoStream": "gostream"}
 
 def units_of(prop):
     us = []
